@@ -254,10 +254,16 @@ CLAIMED["C20"] = ("other", TECH + " on the mechanically extracted run-and-exit t
                   "exception, or an exit with ANY status inside main(), ends in a non-zero status), and the working "
                   "directory and sys.argv are restored on every way out. One genuine defect found, replayed on the real "
                   "program and fixed (exit status 0 without a report when the simulation aborts via a bare sys.exit()). "
-                  "The client's side of the statement (failures reported, no result after a failed run) is C08's.",
-                  TRUSTED + "Dropped by the extraction and NOT decided: the argparse prefix and the rewriting of "
-                  "sys.argv[1..2] to absolute paths, relative output-file resolution in Outputs.read_parameters, the "
-                  "Monte Carlo call site, and 'the same case report' across entry points (whole-program determinism).",
+                  "A second unit extracts everything after `parsed_args = ...`: with pathlib.Path replaced by a ghost "
+                  "path model, main() is entered with sys.argv[1] = the input argument and sys.argv[2] = the output "
+                  "argument resolved against the STARTING working directory, or <starting directory>/HDR.out when no "
+                  "output argument is given. The client's side of the statement (failures reported, no result after a "
+                  "failed run) is C08's.",
+                  TRUSTED + "Dropped by the extraction: the imports and the argparse construction / parse (its positional "
+                  "mapping of the command line is trusted); pathlib is a model (A3). NOT decided: that main() writes the "
+                  "report and JSON to sys.argv[2] (Outputs / GEOPHIRESv3 path handling), relative output-file "
+                  "parameters in Outputs.read_parameters, the Monte Carlo call site, and 'the same case report' across "
+                  "entry points (whole-program determinism).",
                   "DESIGN.md section 4 C20")
 
 ALL = [f"C{n:02d}" for n in range(1, 21)]
